@@ -2,13 +2,17 @@ package harness
 
 import (
 	"bytes"
+	"context"
 	"crypto/tls"
 	"fmt"
+	"net"
+	"net/http"
 	"os"
 	"reflect"
 	"strings"
 	"time"
 
+	"github.com/gorilla/websocket"
 	"go.nanomsg.org/mangos/v3"
 	"go.nanomsg.org/mangos/v3/verifsim/simrt"
 )
@@ -722,4 +726,104 @@ func c19Real(w *W) {
 
 func init() {
 	register(&Scenario{Name: "option-effects-real-transports", Prop: "C19", Engine: "R", Weight: 1, Run: c19Real})
+}
+
+// c19WSOrigin: the WebSocket listener's origin check follows the option
+// contract like any other option - an accepted value is what Get returns and
+// what an upgrade request with a foreign Origin header meets; a rejected value
+// (wrong type) changes neither. Runs the real ws / wss listener, net/http and
+// gorilla inside the simulation; the client is gorilla's with an Origin header.
+func c19WSOrigin(w *W) {
+	tran := []string{"ws", "wss"}[w.Choose(simrt.SShape, 2)]
+	kind := []string{"pair", "rep", "pub", "bus"}[w.Choose(simrt.SShape, 4)]
+	nops := 1 + w.Choose(simrt.SShape, 5)
+	listenAt := w.Choose(simrt.SShape, nops+1) // ops before this index happen before Listen
+	w.SetShape("tran", tran)
+	w.SetShape("kind", kind)
+	w.UseNet(NetCfg{Segment: w.Choose(simrt.SShape, 2) == 0})
+	s := w.Sock(kind)
+	defer s.Close()
+	addr := w.Addr(tran)
+	l, err := s.NewListener(addr, w.EpOpts(addr, true, nil))
+	if err != nil {
+		w.Failf("HARNESS/newlistener", "%v", err)
+		return
+	}
+	const opt = "WEBSOCKET-CHECKORIGIN"
+	model := true // the documented default: origins are checked
+	listened := false
+	listen := func() bool {
+		if err := l.Listen(); err != nil {
+			w.Failf("HARNESS/listen", "%v", err)
+			return false
+		}
+		listened = true
+		return true
+	}
+	vals := []interface{}{true, false, "yes", 0, nil, false, true}
+	for i := 0; i < nops; i++ {
+		if i == listenAt && !listen() {
+			return
+		}
+		v := vals[w.Choose(simrt.SProg, len(vals))]
+		err := l.SetOption(opt, v)
+		b, isBool := v.(bool)
+		w.Op("SetOption(%s, %#v) -> %v", opt, v, errName(err))
+		if isBool {
+			if err != nil {
+				w.Failf("C19/good-value-rejected", "ws listener SetOption(%s, %v) returned %v", opt, v, err)
+				return
+			}
+			model = b
+		} else if err != mangos.ErrBadValue {
+			w.Failf("C19/bad-value-accepted", "ws listener SetOption(%s, %#v) returned %v, expected a bad-value error", opt, v, errName(err))
+			return
+		}
+		if g, err := l.GetOption(opt); err != nil || g != model {
+			w.Failf("C19/get-differs-from-set", "ws listener: the last accepted %s is %v; GetOption returns (%v, %v)", opt, model, g, err)
+			return
+		}
+	}
+	if !listened && !listen() {
+		return
+	}
+	_, cliTLS := simTLS()
+	dial := func(origin string) error {
+		d := &websocket.Dialer{Subprotocols: []string{s.Info().SelfName + ".sp.nanomsg.org"},
+			NetDialContext: func(ctx context.Context, network, a string) (net.Conn, error) {
+				return curNet.Dial(NetKey("tcp://" + a))
+			}}
+		if tran == "wss" {
+			d.TLSClientConfig = cliTLS
+		}
+		var h http.Header
+		if origin != "" {
+			h = http.Header{"Origin": []string{origin}}
+		}
+		c, _, err := d.Dial(l.Address(), h)
+		if err == nil {
+			c.Close()
+		}
+		return err
+	}
+	foreign := w.Do("upgrade with a foreign Origin", func() (interface{}, error) { return nil, dial("http://elsewhere.example") })
+	if !foreign.Wait(10 * time.Second) {
+		w.Failf("C12/call-never-returns:ws-upgrade", "an upgrade request is still unanswered after 10s")
+		return
+	}
+	if (foreign.Err == nil) != !model {
+		w.Failf("C19/option-not-effective:"+opt, "%s listener: the last accepted %s is %v (GetOption agrees); an upgrade request with a foreign Origin header was answered with %v", tran, opt, model, errName(foreign.Err))
+		return
+	}
+	plain := w.Do("upgrade without Origin", func() (interface{}, error) { return nil, dial("") })
+	if !plain.Wait(10*time.Second) || plain.Err != nil {
+		w.Failf("C19/option-not-effective:"+opt, "%s listener (%s = %v): an upgrade request without an Origin header failed: %v", tran, opt, model, plain.Err)
+		return
+	}
+	w.Delivery++
+	w.Probe("ws-origin-check-follows-option")
+}
+
+func init() {
+	register(&Scenario{Name: "ws-origin-option", Prop: "C19", Horizon: time.Hour, Weight: 2, Run: c19WSOrigin})
 }
